@@ -83,6 +83,15 @@ Theorem C16_primitive_model_leak_refuted :
 Proof. exact prim_leak_refuted. Qed.
 Print Assumptions C16_primitive_model_leak_refuted.
 
+(* The restore must cover every root value that cannot carry `_tx_parser`, not only int/float/str/bool: with a
+   restore limited to the primitive types a root value such as a Decimal or a tuple (a match rule converted by an
+   object processor) leaves the classes instrumented. Witness: corpus/C16/immutable_root_values.json. *)
+Theorem C16_immutable_model_leak_refuted :
+  result primonly_facts wit_create wit_load_imm (final primonly_facts wit_create wit_load_imm [New 0 wit_cfg; Load 0 0; Load 0 2]) (Load 0 1)
+  <> result primonly_facts wit_create wit_load_imm (final primonly_facts wit_create wit_load_imm [New 0 wit_cfg]) (Load 0 1).
+Proof. exact immutable_model_leak_refuted. Qed.
+Print Assumptions C16_immutable_model_leak_refuted.
+
 (* The second defect found (fixed in textX): before the fix a nested load that fails to parse (an imported
    file) ran the except-path restore although it had not instrumented anything, un-instrumenting the classes
    of the enclosing load; with a global repository and a user class on the root rule the half-built model
